@@ -32,9 +32,17 @@ static inline bool F_(_deref_ok)(const LP_ *P, cstl_iter it) { return it < CSTL_
 
 static inline cstl_iter F_(_alloc)(LP_ *P)
 {
-#ifdef CSTL_CBMC
+#if defined(CSTL_CBMC) && !defined(CSTL_DETERMINISTIC)
     cstl_iter n = nondet_u64();
     CSTL_ASSUME(n < CSTL_NP && !P->alive[n]);
+    return n;
+#elif defined(CSTL_CBMC)
+    /* relational (C18) harnesses run the same operations on two copies of one state: allocation must be a
+     * function of the state so that both copies stay comparable */
+    cstl_iter n = CSTL_NP;
+    for (cstl_iter i = 0; i < CSTL_NP; i++)
+        if (n == CSTL_NP && !P->alive[i]) n = i;
+    CSTL_ASSUME(n < CSTL_NP);
     return n;
 #else
     for (cstl_iter n = 0; n < CSTL_NP; n++)
